@@ -263,6 +263,19 @@ impl Exec for EncExec {
     fn step(&mut self, w: &[&str]) -> StepOut {
         match w {
             ["seen", ..] => StepOut::default(),
+            // the public `hcobs::find_stuff_sequence`, called directly (track apigaps)
+            ["find", hex] => {
+                let Some(bytes) = from_hex(hex) else { return StepOut::bad() };
+                let got = hcobs::find_stuff_sequence(&bytes);
+                let mut so = StepOut::obs(format!("find={}", got.map(|i| i.to_string()).unwrap_or("none".into())));
+                let want = (0..bytes.len().saturating_sub(1)).find(|i| bytes[*i] == 0xFE && bytes[*i + 1] == 0xFD);
+                if got != want {
+                    so.violations.push(format!("C02 find_stuff_sequence returned {:?}, the first FE FD is at {:?}", got, want));
+                    so.violations.push(format!("C07 find_stuff_sequence returned {:?}, the first FE FD is at {:?}", got, want));
+                }
+                so.tags.push(if got.is_some() { "find_some".into() } else { "find_none".into() });
+                so
+            }
             ["params", rest @ ..] => {
                 self.run = None;
                 self.bufs.clear();
